@@ -56,17 +56,17 @@ var Medias = []string{"application/json", "application/xml", "text/plain", "*/*"
 
 // Opts selects the template forms a stream may use.
 type Opts struct {
-	Router     string
-	AllowRe    bool
-	AllowSuf   bool
-	AllowWild  bool
-	AllowVerb  bool
-	RootVars   bool // variables in root paths
-	RootRe     bool // regex variables in root paths
-	Conds      bool
-	Media      bool
-	MaxSvcs    int
-	MaxRoutes  int
+	Router      string
+	AllowRe     bool
+	AllowSuf    bool
+	AllowWild   bool
+	AllowVerb   bool
+	RootVars    bool // variables in root paths
+	RootRe      bool // regex variables in root paths
+	Conds       bool
+	Media       bool
+	MaxSvcs     int
+	MaxRoutes   int
 	Adversarial bool // free-form paths, odd bytes
 }
 
